@@ -253,6 +253,7 @@ impl Net {
     }
 
     fn collect(&self, panicked: bool) -> Reaction {
+        if panicked && std::env::var("VERIF_DEBUG").is_ok() { eprintln!("DBG handler panicked: {}", super::last_panic()); }
         let mut r = Reaction { panicked, ..Default::default() };
         for c in [&self.lnc, &self.fnc, &self.snc] {
             for (p, reason) in c.take_banned() { r.bans.push((p, ban_code(&reason))); }
@@ -296,6 +297,10 @@ impl Net {
         if self.peers.get_state(&peer).is_none() { self.lc_connect(peer); }
         let r = self.lc_recv(peer, prover::last_state_message(chain, height).as_bytes());
         let mut pending: Vec<(PeerIndex, Sent)> = r.sent;
+        if !pending.iter().any(|(_, s)| matches!(s, Sent::GetLastStateProof(_))) {
+            // a newer last state of a known peer is proven at the next refresh tick
+            pending.extend(self.lc_tick(crate::protocols::light_client::constant::REFRESH_PEERS_TOKEN).sent);
+        }
         for _ in 0..3 {
             let mut next = Vec::new();
             for (p, s) in pending {
@@ -349,6 +354,14 @@ pub(crate) fn serve_blocks_proof(chain: &SynChain, req: &packed::GetBlocksProof)
 }
 
 /// the V1 table under the union item id of SendBlocksProof (5): the client reads it "compatibly"
+/// what a server does when the requested last hash is not on its chain: it only reports its own last state
+pub(crate) fn blocks_proof_new_tip(chain: &SynChain, height: u64) -> P2pBytes {
+    let m = packed::SendBlocksProof::new_builder().last_header(chain.packed_vheader(height)).build();
+    let mut v = 5u32.to_le_bytes().to_vec();
+    v.extend_from_slice(m.as_slice());
+    P2pBytes::from(v)
+}
+
 pub(crate) fn blocks_proof_message(content: packed::SendBlocksProofV1) -> P2pBytes {
     let mut v = 5u32.to_le_bytes().to_vec();
     v.extend_from_slice(content.as_slice());
